@@ -238,6 +238,48 @@ func run(cfg lib.Cfg) error {
 		}
 		judge(sc, "corpus-reference-unwinds-between-retries", true, nil)
 	}
+	// a referenced integration LOSES its only recorded position: the reorg reaches its single
+	// batch, its unwind commits (first transaction) and its re-insert fails, or the dependent
+	// runs exactly between its two commits.  The dependent (the SAME task value before and
+	// after: no restart in between) has seen every reference with a position before and must
+	// nevertheless do nothing while one of them has none, although the other is far ahead.
+	for v := 0; v < 3; v++ {
+		g := graph{}
+		g.igs = []ts.IGSpec{
+			{Name: "a-dep", Shape: "dep", Table: "d1", Ref: "r-one", Ref2: "r-two", RefLo: 1, Hdr: true, Sources: []ts.SrcRef{{Name: "main", Start: 1}}},
+			{Name: "r-one", Shape: "created", Table: "r1", Hdr: true, Sources: []ts.SrcRef{{Name: "main", Start: 1}}},
+			{Name: "r-two", Shape: "created", Table: "r2", Hdr: true, Sources: []ts.SrcRef{{Name: "main", Start: 1}}},
+		}
+		sc := mk(fmt.Sprintf("corpus-reference-loses-its-position-%d", v), g, 4, 4, 1, uint64(58+v))
+		sc.Gen.ForkIsolated = true
+		// r-two records ONE position (4, one batch of 4); then the chain grows and r-one goes on to 12
+		sc.Acts = append(sc.Acts, ts.Act{Do: "step", Tid: 3}, ts.Act{Do: "step", Tid: 2}, ts.Act{Do: "grow", K: 8})
+		sc.Acts = append(sc.Acts, ts.Act{Do: "step", Tid: 2}, ts.Act{Do: "step", Tid: 2})
+		// the dependent sees both references with a position (bound 4)
+		sc.Acts = append(sc.Acts, ts.Act{Do: "step", Tid: 1}, ts.Act{Do: "step", Tid: 1})
+		// blocks >= 3 are replaced: r-two's only position is orphaned
+		sc.Acts = append(sc.Acts, ts.Act{Do: "reorg", Fork: 3, Len: 12})
+		switch v {
+		case 0: // r-two unwinds (commit), its COPY fails: it stays without any position
+			sc.Acts = append(sc.Acts, ts.Act{Do: "fault", Tid: 3, At: 8, Kind: "error"}, ts.Act{Do: "step", Tid: 3})
+		case 1: // the same with the connection lost at the cursor insert
+			sc.Acts = append(sc.Acts, ts.Act{Do: "fault", Tid: 3, At: 9, Kind: "drop"}, ts.Act{Do: "step", Tid: 3})
+		case 2: // the dependent's Converge runs between r-two's two commits
+			sc.Acts = append(sc.Acts, ts.Act{Do: "advuntil", Tid: 3, Call: "Commit"})
+		}
+		sc.Acts = append(sc.Acts, ts.Act{Do: "step", Tid: 2}) // r-one follows the reorg and stays ahead
+		if v == 2 {
+			sc.Acts = append(sc.Acts, ts.Act{Do: "advuntil", Tid: 1, Call: "Rollback"}, ts.Act{Do: "advuntil", Tid: 1, Call: "Rollback"}, ts.Act{Do: "drain"})
+		} else {
+			sc.Acts = append(sc.Acts, ts.Act{Do: "step", Tid: 1}, ts.Act{Do: "step", Tid: 1})
+		}
+		// everybody recovers and reaches the head
+		for k := 0; k < 8; k++ {
+			sc.Acts = append(sc.Acts, ts.Act{Do: "step", Tid: 3}, ts.Act{Do: "step", Tid: 2}, ts.Act{Do: "step", Tid: 1})
+		}
+		judge(sc, "corpus-reference-loses-its-position", true, nil)
+	}
+
 	// corpus for the KNOWN limit (known_findings/C05.json, C05-reference-on-orphaned-chain): the
 	// reference sits at position 8 of the chain that a reorg (fork 5) orphans and is not stepped
 	// again; the dependent, still on the common prefix, indexes the replacement blocks 5..8:
